@@ -340,3 +340,56 @@ def truth_states(g, names, skip=("exc",), ghost=None):
                     cur.add(o2)
                     work.append(b)
     return IN, idx
+
+
+class NotConstant(Exception):
+    pass
+
+
+def const_value(m, e, env=None, depth=0):
+    """Value of a module-level constant expression of module m: literals, tuples / lists, names bound once at module level,
+    `+` of strings / sequences, `%` formatting, tuple() / list() / sorted(), comprehensions over such values with one loop
+    variable.  Raises NotConstant for anything else (nothing is executed: the expression is interpreted node by node)."""
+    env = env or {}
+    if depth > 12:
+        raise NotConstant("too deep")
+    if isinstance(e, ast.Constant):
+        return e.value
+    if isinstance(e, (ast.Tuple, ast.List)):
+        return tuple(const_value(m, x, env, depth + 1) for x in e.elts)
+    if isinstance(e, ast.Name):
+        if e.id in env:
+            return env[e.id]
+        v = m.module_assign(e.id)
+        if v is None:
+            raise NotConstant(e.id)
+        return const_value(m, v, {}, depth + 1)
+    if isinstance(e, ast.BinOp) and isinstance(e.op, ast.Add):
+        a, b = const_value(m, e.left, env, depth + 1), const_value(m, e.right, env, depth + 1)
+        if isinstance(a, str) and isinstance(b, str):
+            return a + b
+        if isinstance(a, tuple) and isinstance(b, tuple):
+            return a + b
+        raise NotConstant(ast.unparse(e))
+    if isinstance(e, ast.BinOp) and isinstance(e.op, ast.Mod):
+        a, b = const_value(m, e.left, env, depth + 1), const_value(m, e.right, env, depth + 1)
+        if isinstance(a, str):
+            try:
+                return a % b
+            except (TypeError, ValueError):
+                raise NotConstant(ast.unparse(e))
+    if isinstance(e, ast.Call) and isinstance(e.func, ast.Name) and e.func.id in ("tuple", "list", "sorted") and len(e.args) == 1 and not e.keywords:
+        v = const_value(m, e.args[0], env, depth + 1)
+        if isinstance(v, tuple):
+            return tuple(sorted(v)) if e.func.id == "sorted" else v
+    if isinstance(e, (ast.GeneratorExp, ast.ListComp)) and len(e.generators) == 1 and isinstance(e.generators[0].target, ast.Name) \
+            and not e.generators[0].ifs:
+        it = const_value(m, e.generators[0].iter, env, depth + 1)
+        if isinstance(it, tuple):
+            out = []
+            for x in it:
+                env2 = dict(env)
+                env2[e.generators[0].target.id] = x
+                out.append(const_value(m, e.elt, env2, depth + 1))
+            return tuple(out)
+    raise NotConstant(ast.unparse(e)[:60])
